@@ -355,7 +355,7 @@ def step (st : St) (op res : String) : St × List String :=
     if res == "SKIP after-hang" then (st, ["br:sys.skip"]) else
     match Dispatch.ip4 s, Dispatch.ip4 e, lease.toInt? with
     | some s, some e, some l =>
-      match RState.setup s e l [] some id, res == "ok" with
+      match RState.setup s e (keptLease l) [] some id, res == "ok" with
       | .ok m, true => ({ st with chain4 := st.chain4 ++ [.lease none], range := some m }, ["br:sys.range-ok"])
       | .error _, false => (st, ["br:sys.range-rejected"])
       | .ok _, false => (st, ["DIVERGE dom[sent] model=ok"])
